@@ -165,7 +165,8 @@ class TrimeshPolyhedron(Domain):
 
     def _contains(self, points, params=Points.empty()):
         if isinstance(points, Points):
-            points = points.as_tensor
+            # only the coordinates of this domain, in the order of its space
+            points = points[:, list(self.space.keys())].as_tensor
         inside = self.mesh.contains(points).reshape(-1, 1)
         return torch.tensor(inside)
 
@@ -232,7 +233,7 @@ class TrimeshBoundary(BoundaryDomain):
         super().__init__(domain)
 
     def _contains(self, points, params=Points.empty()):
-        points = points.as_tensor
+        points = points[:, list(self.space.keys())].as_tensor
         distance = trimesh.proximity.signed_distance(self.domain.mesh, points)
         abs_dist = torch.absolute(torch.tensor(distance))
         on_bound = abs_dist <= self.domain.tol
@@ -263,7 +264,7 @@ class TrimeshBoundary(BoundaryDomain):
         points, params, device = self._transform_input_for_normals(
             points, params, device
         )
-        points = points.as_tensor.detach().cpu()
+        points = points[:, list(self.space.keys())].as_tensor.detach().cpu()
         index = self.domain.mesh.nearest.on_surface(points)[2]
         mesh_normals = torch.tensor(self.domain.mesh.face_normals, device=device)
         normals = torch.zeros((len(points), 3), device=device)
